@@ -1,2 +1,132 @@
--- stub: replaced by the model driver of this property
-def main : IO Unit := pure ()
+import SdcModel.Basic.Io
+import SdcModel.Multikey
+open Sdc Sdc.Multikey
+
+/-! Model driver for C11. One op per line, one answer line per op.
+
+  `defs <d>…`            d = m|u|n followed by 1|0 (index_none_values)   -> reset, `ok`
+  `set <o> <r>…`         r = E | N | o<k> | s<w>:<e>,… | l<k>,…          -> `ok <dump>`
+  `add|rm|upd <o>`, `clear`, `addm|rmm|updm <o>…`                        -> `ok <dump>` | `err <class> <dump>`
+  `get <i> <k>` -> `none` | `o,…`     `has <i> <k>` -> `true|false`     `one <i> <k> <0|1>` -> `ok <o>|ok none|err <class>`
+  dump = `O:<objs sorted> I<i>:<k>=<o,…>|… R:<o>=<i>.<k>,…/…` over the universe of keys / objects mentioned so far
+-/
+
+structure DState where
+  defs : List IdxDef
+  w : World
+  keys : List Nat      -- universe, sorted
+  objs : List Nat      -- universe, sorted
+
+def insertSorted (x : Nat) : List Nat → List Nat
+  | [] => [x]
+  | y :: ys => if x < y then x :: y :: ys else if x = y then y :: ys else y :: insertSorted x ys
+
+def natOfChars (cs : List Char) : Option Nat :=
+  if cs.isEmpty then none else
+  cs.foldl (fun acc c => match acc with
+    | none => none
+    | some n => if c.isDigit then some (n * 10 + (c.toNat - '0'.toNat)) else none) (some 0)
+
+def splitChars (sep : Char) (cs : List Char) : List (List Char) :=
+  let r := cs.foldr (fun c (acc : List Char × List (List Char)) =>
+    if c = sep then ([], acc.1 :: acc.2) else (c :: acc.1, acc.2)) ([], [])
+  r.1 :: r.2
+
+def natsOfChars (cs : List Char) : Option (List Nat) :=
+  if cs.isEmpty then some [] else (splitChars ',' cs).mapM natOfChars
+
+def parseDef (s : String) : Option IdxDef :=
+  match s.toList with
+  | [c, b] =>
+    let kind := match c with | 'm' => some IdxKind.multi | 'u' => some .unique | 'n' => some .oneN | _ => none
+    let nn := match b with | '1' => some true | '0' => some false | _ => none
+    match kind, nn with
+    | some k, some b => some ⟨k, b⟩
+    | _, _ => none
+  | _ => none
+
+def parseRes (s : String) : Option KeyRes :=
+  match s.toList with
+  | ['E'] => some .attrErr
+  | ['N'] => some .none
+  | 'o' :: rest => (natOfChars rest).map .one
+  | 'l' :: rest => (natsOfChars rest).map .many
+  | 's' :: rest =>
+    match splitChars ':' rest with
+    | [w, es] => match natOfChars w, natsOfChars es with
+      | some w, some es => some (.seq w es)
+      | _, _ => none
+    | _ => none
+  | _ => none
+
+def keysOfKeyRes : KeyRes → List Nat
+  | .one k => [k]
+  | .seq w es => w :: es
+  | .many ks => ks
+  | _ => []
+
+def commaNats (l : List Nat) : String := ",".intercalate (l.map toString)
+
+def dump (s : DState) : String :=
+  let t := s.w.tab
+  let objs := s.objs.filter (· ∈ t.objs)
+  let extra := t.objs.filter (· ∉ s.objs)      -- cannot happen; shown if it does
+  let idxs := (List.range s.defs.length).map (fun i =>
+    s!"I{i}:" ++ "|".intercalate ((s.keys.filter (fun k => t.idx i k ≠ [])).map (fun k => s!"{k}={commaNats (t.idx i k)}")))
+  let refs := s.objs.filterMap (fun o => (t.refs o).map (fun r =>
+    s!"{o}=" ++ ",".intercalate (r.map (fun ik => s!"{ik.1}.{ik.2}"))))
+  s!"O:{commaNats (objs ++ extra)} " ++ " ".intercalate idxs ++ " R:" ++ "/".intercalate refs
+
+def errName : Err → String
+  | .keyError => "KeyError"
+  | .valueError => "ValueError"
+
+def answer (s : DState) (e : Option Err) : String :=
+  match e with
+  | none => "ok " ++ dump s
+  | some e => "err " ++ errName e ++ " " ++ dump s
+
+def doOp (s : DState) (op : Op) (mention : List Nat) : DState × String :=
+  let r := step s.defs s.w op
+  let s' := { s with w := r.1, objs := mention.foldl (fun acc o => insertSorted o acc) s.objs }
+  (s', answer s' r.2)
+
+def stepLine (s : DState) (line : String) : DState × String :=
+  match Io.words line with
+  | "defs" :: ds =>
+    match ds.mapM parseDef with
+    | some defs => ({ defs := defs, w := World.init, keys := [noneKey], objs := [] }, "ok")
+    | none => (s, "bad-op")
+  | "set" :: o :: rs =>
+    match o.toNat?, rs.mapM parseRes with
+    | some o, some rs =>
+      let ks := (rs.flatMap keysOfKeyRes).foldl (fun acc k => insertSorted k acc) s.keys
+      doOp { s with keys := ks } (.setAttrs o rs) [o]
+    | _, _ => (s, "bad-op")
+  | ["add", o] => match o.toNat? with | some o => doOp s (.add o) [o] | none => (s, "bad-op")
+  | ["rm", o] => match o.toNat? with | some o => doOp s (.remove o) [o] | none => (s, "bad-op")
+  | ["upd", o] => match o.toNat? with | some o => doOp s (.update o) [o] | none => (s, "bad-op")
+  | ["clear"] => doOp s .clear []
+  | "addm" :: os => match Io.parseNats os with | some os => doOp s (.addMany os) os | none => (s, "bad-op")
+  | "rmm" :: os => match Io.parseNats os with | some os => doOp s (.removeMany os) os | none => (s, "bad-op")
+  | "updm" :: os => match Io.parseNats os with | some os => doOp s (.updateMany os) os | none => (s, "bad-op")
+  | ["dump"] => (s, dump s)
+  | ["get", i, k] =>
+    match i.toNat?, k.toNat? with
+    | some i, some k => (s, match Multikey.get s.w.tab i k with | none => "none" | some l => commaNats l)
+    | _, _ => (s, "bad-op")
+  | ["has", i, k] =>
+    match i.toNat?, k.toNat? with
+    | some i, some k => (s, if contains s.w.tab i k then "true" else "false")
+    | _, _ => (s, "bad-op")
+  | ["one", i, k, a] =>
+    match i.toNat?, k.toNat? with
+    | some i, some k =>
+      (s, match getOne s.w.tab i k (a == "1") with
+          | .ok none => "ok none"
+          | .ok (some o) => s!"ok {o}"
+          | .error e => "err " ++ errName e)
+    | _, _ => (s, "bad-op")
+  | _ => (s, "bad-op")
+
+def main : IO Unit := Io.lineLoop stepLine { defs := [], w := World.init, keys := [noneKey], objs := [] }
